@@ -22,13 +22,21 @@ def _rep(s):
 
 
 def schema_family(rng, kind=None):
-    kind = kind or rng.choice(["intkey", "composite", "strkey", "random", "intkey", "composite", "widerange"])
+    kind = kind or rng.choice(["intkey", "composite", "strkey", "random", "intkey", "composite", "widerange", "pklast", "pkgap", "i32key"])
     if kind == "intkey":
         return [mk("K", "i16", pk=True), mk("V", ("str", 10), null=True), mk("N", "i32", null=True)]
     if kind == "composite":
         return [mk("A", "i16", pk=True), mk("B", ("str", 4), pk=True, null=True), mk("C", "i16", null=True)]
     if kind == "strkey":
         return [mk("S", ("str", 6), pk=True), mk("X", "i32", null=True, rng=(-5, 100))]
+    if kind == "pklast":
+        # the key column is not the leading column: keys are the cells at the key positions, not a prefix of the row
+        return [mk("L", ("str", 8), null=True), mk("Id", "i16", pk=True)]
+    if kind == "pkgap":
+        return [mk("A", "i16", pk=True), mk("V", ("str", 6), null=True), mk("B", "i16", pk=True), mk("W", "i32", null=True)]
+    if kind == "i32key":
+        # keys more than 2^31 apart: ordering and comparisons must not go through a difference
+        return [mk("K", "i32", pk=True), mk("V", ("str", 6), null=True)]
     if kind == "widerange":
         # the declared range is wider than the storage type: the type's own bounds must still be enforced
         return [mk("K", "i16", pk=True, rng=(0, 100000)), mk("W", "i16", null=True, rng=(-40000, 40000)),
